@@ -19,6 +19,46 @@ type c18Case struct {
 	History []string `json:"history"` // op/3 goals as text
 }
 
+// sweeps: an enumeration by current_op/3 (one of 4 instantiation patterns) that stays OPEN while every operator
+// named o1/o2 it reaches is removed and while other current_op/3 calls (one of 4 kinds) run
+const c18SweepPrefix = "sweep: "
+
+var c18SweepOuter = []string{"current_op(P, T, N)", "current_op(P, xfx, N), T = xfx", "current_op(200, T, N), P = 200", "current_op(200, xfx, N), P = 200, T = xfx"}
+var c18SweepInner = []string{"(\\+ current_op(_, _, N) -> true ; true)", "\\+ current_op(_, T, N), \\+ current_op(1, xfx, N)", "once(current_op(_, _, _))", "findall(x, current_op(_, _, _), _)"}
+
+func c18Sweeps() []string {
+	var out []string
+	for i := range c18SweepOuter {
+		for j := range c18SweepInner {
+			out = append(out, fmt.Sprintf("%s%d %d", c18SweepPrefix, i, j))
+		}
+	}
+	return out
+}
+
+// c18SweepApply removes from the model what the sweep removes and returns what it must enumerate.
+func c18SweepApply(model ref.OpTable, g string) (outer, inner string, want []string) {
+	var i, j int
+	fmt.Sscanf(strings.TrimPrefix(g, c18SweepPrefix), "%d %d", &i, &j)
+	for _, n := range []string{"o1", "o2"} {
+		for cl, d := range model[n] {
+			if (i == 1 || i == 3) && d.Spec != "xfx" {
+				continue
+			}
+			if (i == 2 || i == 3) && d.Pri != 200 {
+				continue
+			}
+			want = append(want, ref.CanonAnswer([]ref.Term{ref.C("t", ref.Int(int64(d.Pri)), ref.Atom(d.Spec), ref.Atom(n))}))
+			delete(model[n], cl)
+		}
+		if len(model[n]) == 0 {
+			delete(model, n)
+		}
+	}
+	sort.Strings(want)
+	return c18SweepOuter[i], c18SweepInner[j], want
+}
+
 func c18Alphabet(thorough bool) []string {
 	pris := []string{"0", "200", "700", "1200", "1201"}
 	specs := []string{"fx", "fy", "xfx", "xfy", "yfx", "xf", "yf", "foo"}
@@ -28,7 +68,7 @@ func c18Alphabet(thorough bool) []string {
 		specs = []string{"fx", "fy", "xfx", "xfy", "yfx", "xf", "yf", "foo", "1", "_"}
 		names = []string{"o1", "o2", "-", "','", "'|'", "'[]'", "'{}'", "[o1, o2]", "[o2, o1]", "[o1, '[]']", "[o1|_]", "[o1, 7]", "[o2, _]", "7", "_", "[o2, -]", "[]"}
 	}
-	var out []string
+	out := c18Sweeps()
 	for _, n := range names {
 		for _, s := range specs {
 			for _, p := range pris {
@@ -84,25 +124,45 @@ func c18Run(c *c18Case, full bool) (exp, act, sig, key string, ok bool) {
 	im := h.NewImpl()
 	model := c18InitialTable()
 	for i, g := range c.History {
-		goal := rd(g).(*ref.Cmp)
-		before := model.Clone()
-		res := model.Apply(goal.Args[0], goal.Args[1], goal.Args[2])
-		o := im.Query(g+".", nil, 2)
 		last := i == len(c.History)-1
-		succeeded := o.Status == "exhausted" && len(o.Answers) == 1
-		errored := o.Status == "error" && strings.HasPrefix(o.Err, "error(")
-		if !succeeded && !errored {
-			return "op/3 succeeds or raises an ISO error", o.String(), "op: neither success nor error(…): " + o.Status, "", false
-		}
-		if res.Err && !res.EitherOK && succeeded {
-			_ = before
-			return "error (" + res.Why + "), table unchanged", "succeeded", "op: an invalid call succeeded: " + res.Why, "", false
-		}
-		if !res.Err && errored {
-			return "success", o.String(), "op: a valid call raised an error", "", false
-		}
-		if !last {
-			continue
+		var res ref.OpResult
+		if strings.HasPrefix(g, c18SweepPrefix) {
+			outer, inner, want := c18SweepApply(model, g)
+			o, ans := im.QueryTerms("findall(t(P, T, N), ("+outer+", ('=='(N, o1) ; '=='(N, o2)), op(0, T, N), "+inner+"), S).", []string{"S"}, 2)
+			var got []string
+			if len(ans) == 1 {
+				es, _ := ref.ListSlice(ans[0][0])
+				for _, e := range es {
+					got = append(got, ref.CanonAnswer([]ref.Term{e}))
+				}
+			}
+			sort.Strings(got)
+			if o.Status != "exhausted" || len(ans) != 1 || strings.Join(got, " | ") != strings.Join(want, " | ") {
+				return "every operator named o1/o2 reached exactly once: " + strings.Join(want, " | "), o.Status + " " + o.Err + " " + strings.Join(got, " | "), "current_op: an enumeration that is open while operators are removed skips or repeats entries", "", false
+			}
+			if !last {
+				continue
+			}
+		} else {
+			goal := rd(g).(*ref.Cmp)
+			before := model.Clone()
+			res = model.Apply(goal.Args[0], goal.Args[1], goal.Args[2])
+			o := im.Query(g+".", nil, 2)
+			succeeded := o.Status == "exhausted" && len(o.Answers) == 1
+			errored := o.Status == "error" && strings.HasPrefix(o.Err, "error(")
+			if !succeeded && !errored {
+				return "op/3 succeeds or raises an ISO error", o.String(), "op: neither success nor error(…): " + o.Status, "", false
+			}
+			if res.Err && !res.EitherOK && succeeded {
+				_ = before
+				return "error (" + res.Why + "), table unchanged", "succeeded", "op: an invalid call succeeded: " + res.Why, "", false
+			}
+			if !res.Err && errored {
+				return "success", o.String(), "op: a valid call raised an error", "", false
+			}
+			if !last {
+				continue
+			}
 		}
 		// (2) the table as enumerated by current_op/3
 		got, bad := c18Table(im)
@@ -321,18 +381,22 @@ func diffEntries(want, got []string, showWant bool) string {
 
 func c18Work(w *h.W) {
 	// quick: reduced alphabet to depth 2; thorough: reduced alphabet to depth 3, then full alphabet to depth 2
-	c18BFS(w, c18Alphabet(false), w.Pick(2, 3))
+	c18BFS(w, nil, c18Alphabet(false), w.Pick(2, 3))
 	if w.Thorough() {
-		c18BFS(w, c18Alphabet(true), 2)
+		c18BFS(w, nil, c18Alphabet(true), 2)
 	}
+	// a second root: a table that already holds several user operators of several classes (so that removals
+	// happen in the middle of the table, not only at its end)
+	root := []string{"op(200, xfx, [o1, o2])", "op(700, fy, [o1, o2, o3])", "op(200, xfy, o3)"}
+	c18BFS(w, root, c18Alphabet(false), w.Pick(1, 2))
 }
 
-func c18BFS(w *h.W, alpha []string, maxDepth int) {
+func c18BFS(w *h.W, root []string, alpha []string, maxDepth int) {
 	type node struct{ hist []string }
 	var frontier []node
 	for _, a := range alpha {
 		if w.Mine() {
-			frontier = append(frontier, node{[]string{a}})
+			frontier = append(frontier, node{append(append([]string{}, root...), a)})
 		}
 	}
 	seen := map[string]bool{}
@@ -347,6 +411,10 @@ func c18BFS(w *h.W, alpha []string, maxDepth int) {
 			// the table state this history leads to (model only) decides whether the probes are repeated
 			mk := c18InitialTable()
 			for _, g := range nd.hist {
+				if strings.HasPrefix(g, c18SweepPrefix) {
+					c18SweepApply(mk, g)
+					continue
+				}
 				goal := rd(g).(*ref.Cmp)
 				mk.Apply(goal.Args[0], goal.Args[1], goal.Args[2])
 			}
@@ -395,12 +463,12 @@ func c18Replay(b []byte) (string, string, bool) {
 
 func init() {
 	h.Register(&h.Check{
-		ID: "C18",
-		Rule: "explicit-state BFS over op/3 histories: alphabet = priorities {0,200,700,1200,1201} (thorough: {-1,0,1,200,700,1000,1001,1200,1201, a non-integer, unbound}) x specifiers {the seven, foo} (thorough: plus 1, unbound) x names {o1, -, [o1,o2], [o2,o1], [o1,'[]'], '|', ','} (thorough: plus o2, '[]', '{}', partial list, list with a number / an unbound member, a number, unbound, [o2,-], []); states = distinct reference tables; every history up to depth D, expanding each table state once. After EVERY transition: success/error as ISO prescribes, the complete table through current_op/3, current_op/3 in all 8 instantiation patterns for 6 probe names x all specifiers and priorities, reader probes (prefix/infix/postfix use parses iff defined, with the structure and associativity the specifier implies) and writer probes (operator notation iff defined). Distinct = table state.",
-		Explanation: "state = the reference operator table (ISO 8.14.3: one definition per name and class, 0 removes, no infix+postfix of one name, ',' '|' '[]' '{}' rules, a failing call changes nothing); transition = one op/3 call on the real interpreter (history replayed on a fresh instance); the initial table is read from a fresh instance",
-		Assumptions: []string{"which error a failing op/3 raises is not compared (C05 checks that it is an ISO error term), only that it fails and leaves the table unchanged", "priority 0 for a name whose conflicting class exists (ISO silent) may succeed or fail"},
-		Work:        c18Work,
-		Replay:      c18Replay,
+		ID:            "C18",
+		Rule:          "explicit-state BFS over op/3 histories: alphabet = priorities {0,200,700,1200,1201} (thorough: {-1,0,1,200,700,1000,1001,1200,1201, a non-integer, unbound}) x specifiers {the seven, foo} (thorough: plus 1, unbound) x names {o1, -, [o1,o2], [o2,o1], [o1,'[]'], '|', ','} (thorough: plus o2, '[]', '{}', partial list, list with a number / an unbound member, a number, unbound, [o2,-], []); states = distinct reference tables; every history up to depth D, expanding each table state once. After EVERY transition: success/error as ISO prescribes, the complete table through current_op/3, current_op/3 in all 8 instantiation patterns for 6 probe names x all specifiers and priorities, reader probes (prefix/infix/postfix use parses iff defined, with the structure and associativity the specifier implies) and writer probes (operator notation iff defined). Distinct = table state.; the alphabet also holds 16 SWEEPS (an enumeration by current_op/3 in one of 4 instantiation patterns that stays open while every operator named o1/o2 it reaches is removed and other current_op/3 calls of 4 kinds run: every such operator is reached exactly once), and the search is repeated from a second root, a table that already holds user operators of three names and classes",
+		Explanation:   "state = the reference operator table (ISO 8.14.3: one definition per name and class, 0 removes, no infix+postfix of one name, ',' '|' '[]' '{}' rules, a failing call changes nothing); transition = one op/3 call on the real interpreter (history replayed on a fresh instance); the initial table is read from a fresh instance",
+		Assumptions:   []string{"which error a failing op/3 raises is not compared (C05 checks that it is an ISO error term), only that it fails and leaves the table unchanged", "priority 0 for a name whose conflicting class exists (ISO silent) may succeed or fail"},
+		Work:          c18Work,
+		Replay:        c18Replay,
 		QuickDeadline: 170 * time.Second, ThoroughDeadline: 30 * time.Minute,
 	})
 }
